@@ -26,6 +26,12 @@ def build(t, cells):
         return tuple(build(x, cells) for x in t['v'])
     if k == 'dict':
         return {kk: build(v, cells) for kk, v in t['v'].items()}
+    if k == 'class':
+        mod, cls = t['cls'].split(':')
+        C = importlib.import_module(mod)
+        for p in cls.split('.'):
+            C = getattr(C, p)
+        return C
     if k == 'ilist':          # immutable snapshot of a list (functional sequence)
         return [build(x, cells) for x in t['v']]
     cid = t['id']
@@ -88,6 +94,8 @@ def main():
     f = importlib.import_module(mod)
     for p in qual.split('.'):
         f = getattr(f, p)
+    if hasattr(f, '__func__') and isinstance(getattr(f, '__self__', None), type):
+        f = f.__func__                 # classmethod: the class is passed explicitly as the first argument
     out = {'exc': None, 'exc_msg': '', 'result': None}
     try:
         pos = [args[n] for n in req['order']]
